@@ -294,6 +294,15 @@ pub fn kb_attacks(r: &mut Rng, h: &Honest, other: Option<&Honest>, edits: usize,
         l.insert(r.below(ds.len() + 1), forged);
         out.push(b.with_parts("replay-one-more-forged-disclosure", jwt, l));
     }
+    // a presented disclosure re-spelled (padding appended, a blank appended): not the sequence the sd_hash covers
+    if !ds.is_empty() {
+        for (name, suffix) in [("padded", "="), ("double-padded", "=="), ("blank-appended", " ")] {
+            let mut l = ds.clone();
+            let i = r.below(l.len());
+            l[i] = format!("{}{}", l[i], suffix);
+            out.push(b.with_parts(&format!("replay-one-disclosure-{}", name), jwt, l));
+        }
+    }
     // an EMPTY entry added to the disclosure sequence (compact: a doubled `~`; JSON: an empty string): the sequence presented is
     // no longer the one the KB-JWT's sd_hash covers
     for (name, at) in [("front", 0usize), ("back", ds.len()), ("middle", ds.len() / 2)] {
@@ -372,6 +381,48 @@ pub fn kb_attacks(r: &mut Rng, h: &Honest, other: Option<&Honest>, edits: usize,
     out.push(b.mk("verifier-expects-another-aud", h.pres_text.clone(), Some(&aud2), Some(&k.nonce)));
     out.push(b.mk("verifier-expects-another-nonce", h.pres_text.clone(), Some(&k.aud), Some(&nonce2)));
     out.push(b.mk("verifier-expects-another-aud-and-nonce", h.pres_text.clone(), Some(&aud2), Some(&nonce2)));
+    // values of the SAME length and the SAME characters in another order, or differing in case, in one character, by a
+    // prefix / suffix: comparisons that are not exact string equality (folded, truncated, order-insensitive) accept these
+    for (what, orig) in [("nonce", k.nonce.clone()), ("aud", k.aud.clone())] {
+        let cs: Vec<char> = orig.chars().collect();
+        let mut variants: Vec<(String, String)> = vec![];
+        if cs.len() >= 2 {
+            let mut rev = cs.clone();
+            rev.reverse();
+            variants.push(("reversed".into(), rev.iter().collect()));
+            let mut sw = cs.clone();
+            sw.swap(0, cs.len() - 1);
+            variants.push(("first-and-last-swapped".into(), sw.iter().collect()));
+            let mut rot = cs.clone();
+            rot.rotate_left(1);
+            variants.push(("rotated".into(), rot.iter().collect()));
+            let (i, j) = (r.below(cs.len()), r.below(cs.len()));
+            let mut sw2 = cs.clone();
+            sw2.swap(i, j);
+            variants.push(("two-positions-swapped".into(), sw2.iter().collect()));
+            variants.push(("truncated".into(), cs[..cs.len() - 1].iter().collect()));
+            // two characters changed by the same bit pattern (XOR-accumulating comparisons cancel)
+            let mut x = cs.clone();
+            let flip = |c: char| char::from_u32((c as u32) ^ 1).unwrap_or(c);
+            x[0] = flip(x[0]);
+            x[cs.len() - 1] = flip(x[cs.len() - 1]);
+            variants.push(("two-characters-flipped-alike".into(), x.iter().collect()));
+        }
+        variants.push(("uppercased".into(), orig.to_uppercase()));
+        variants.push(("lowercased".into(), orig.to_lowercase()));
+        variants.push(("extended".into(), format!("{}x", orig)));
+        variants.push(("trailing-blank".into(), format!("{} ", orig)));
+        for (vn, v) in variants {
+            if v == orig {
+                continue;
+            }
+            if what == "nonce" {
+                out.push(b.mk(&format!("verifier-expects-nonce-{}", vn), h.pres_text.clone(), Some(&k.aud), Some(&v)));
+            } else {
+                out.push(b.mk(&format!("verifier-expects-aud-{}", vn), h.pres_text.clone(), Some(&v), Some(&k.nonce)));
+            }
+        }
+    }
     if k.aud != k.nonce {
         out.push(b.mk("verifier-expects-aud-and-nonce-swapped", h.pres_text.clone(), Some(&k.nonce), Some(&k.aud)));
     }
